@@ -86,12 +86,6 @@ def inject_any(rng, mod, nodes, config, parent, cnt, p):
 def gen_module(rng, state=True, rpc=False):
     g = yanggen.SchemaGen(rng, adversarial=rng.random() < 0.3, state=state, userord=True)
     m = g.module()
-    for n in m.all_nodes():
-        # (a carriage return in a default makes the module text invalid)
-        if n.kind == "leaf" and n.default:
-            n.default = n.default.replace("\r", "")
-        elif n.kind == "leaf-list":
-            n.defaults = [d.replace("\r", "") for d in n.defaults]
     cnt = [0]
     inject_any(rng, m, m.nodes, True, None, cnt, 0.9)
     for n in m.all_nodes():
@@ -109,6 +103,12 @@ def gen_module(rng, state=True, rpc=False):
         for n in m.all_nodes():
             n.module = m
         inject_any(rng, m, inp, True, None, cnt, 1.0)
+    for n in m.all_nodes():
+        # (a carriage return in a default makes the module text invalid)
+        if n.kind == "leaf" and n.default:
+            n.default = n.default.replace("\r", "")
+        elif n.kind == "leaf-list":
+            n.defaults = [d.replace("\r", "") for d in n.defaults]
     return m
 
 
@@ -210,22 +210,214 @@ def to_xml(forest, parent_mod=None):
     return "".join(out)
 
 
-def schema_desc(m, with_m2=False):
+# ------------------------------------------------------------------------------------------------
+# schema families: a second module (m3) that defines EQUAL local names at the same level as m1 (augments into m1's
+# containers, lists, choices, rpc input; top-level nodes named like m1's), feature-dependent nodes, another load order
+# ------------------------------------------------------------------------------------------------
+class ExtMod:
+    name = "m3"
+    ns = "urn:verif:m3"
+    prefix = "m3"
+
+    def __init__(self):
+        self.tops = []          # top-level nodes
+        self.augs = []          # (schema path text, [nodes], target SNode | ("rpc", name), case name | None)
+
+    def nodes_for(self, target):
+        """nodes augmented into the container / list / choice `target` (case name for a choice)"""
+        return [(ns, case) for _, ns, t, case in self.augs if t is target]
+
+    def yang(self):
+        s = 'module m3 {\n  yang-version 1.1;\n  namespace "%s";\n  prefix m3;\n  import m1 { prefix m1; }\n' % self.ns
+        for n in self.tops:
+            s += n.yang("  ")
+        for path, ns, _, case in self.augs:
+            s += '  augment "%s" {\n' % path
+            if case:
+                s += "    case %s {\n" % case
+            for n in ns:
+                s += n.yang("      " if case else "    ")
+            if case:
+                s += "    }\n"
+            s += "  }\n"
+        return s + "}\n"
+
+
+def set_module(nodes, mod):
+    for n in nodes:
+        n.module = mod
+        if n.kind in ("container", "list"):
+            set_module(n.children, mod)
+
+
+def gen_ext(rng, m):
+    """the augmenting module for m (names equal to existing children of the augmented node with probability 0.7)"""
+    ext = ExtMod()
+    g = yanggen.SchemaGen(rng, adversarial=False, state=False, userord=True, constraints=False, choices=False)
+    g.n = 500
+    cnt = [0]
+
+    def fresh(config, like=None):
+        r = rng.random()
+        if like is not None and rng.random() < 0.5:
+            r = {"leaf": 0.1, "leaf-list": 0.5, "container": 0.7, "list": 0.85}.get(like.kind, 0.95)
+        if r < 0.45:
+            n = g.leaf(config, allow_mand=False)
+        elif r < 0.6:
+            n = g.leaflist(config)
+        elif r < 0.75:
+            n = yanggen.SContainer(g.nm("c"), [g.leaf(config, allow_mand=False), g.leaf(config, allow_mand=False)],
+                                   presence=rng.random() < 0.4, config=config)
+        elif r < 0.9:
+            n = g.list(1, config)
+        else:
+            cnt[0] += 1
+            n = SAny("xa%d" % cnt[0], rng.choice(["anydata", "anyxml"]), config=config)
+        return n
+
+    usedall = set()
+
+    def named(config, existing, used):
+        like = rng.choice(existing) if existing and rng.random() < 0.7 else None
+        n = fresh(config, like)
+        if like is not None and like.name not in usedall:
+            n.name = like.name
+        usedall.add(n.name)
+        return n
+
+    targets = []
+
+    def walk(children, path):
+        for n in children:
+            if n.kind in ("container", "list"):
+                targets.append((n, path + "/m1:" + n.name))
+                walk(n.children, path + "/m1:" + n.name)
+            elif n.kind == "choice" and path:
+                # (only choices that are not nested in another choice; not a TOP-LEVEL choice: the data parsers look a
+                # top-level element of namespace m3 up among the top-level nodes of m3 only and reject it - reported)
+                targets.append((n, path + "/m1:" + n.name))
+    walk(m.nodes, "")
+    for name, inp, _ in m.rpcs:
+        targets.append((("rpc", name, inp), "/m1:%s/m1:input" % name))
+        walk(inp, "/m1:%s/m1:input" % name)
+    rng.shuffle(targets)
+    for k, (t, path) in enumerate(targets):
+        if k and rng.random() > 0.55:
+            continue
+        used = set()
+        if isinstance(t, tuple):
+            ns = [named(True, [c for c, _ in yanggen.flatten_children(t[2])], used) for _ in range(rng.randrange(1, 3))]
+            ext.augs.append((path, ns, ("rpc", t[1]), None))
+        elif t.kind == "choice":
+            own = [c for c, _ in yanggen.flatten_children([t])]
+            n = named(own[0].config if own else True, [c for c in own if c.kind == "leaf"], used)
+            ext.augs.append((path, [n], t, "xcs%d" % k))
+        else:
+            existing = [c for c, _ in yanggen.flatten_children(t.children)]
+            ns = [named(t.config, existing, used) for _ in range(rng.randrange(1, 3))]
+            ext.augs.append((path, ns, t, None))
+    used = set()
+    ext.tops = [named(True, [c for c, _ in yanggen.flatten_children(m.nodes)], used) for _ in range(rng.randrange(1, 3))]
+    set_module(ext.tops, ext)
+    for _, ns, t, _ in ext.augs:
+        set_module(ns, ext)
+        for n in ns:
+            n.parent = t if not isinstance(t, tuple) else None
+    return ext
+
+
+def ext_instance(rng, ig, n, forced=False):
+    if isinstance(n, SAny):
+        return [yanggen.DNode(n, value=any_xml(rng, n.kind == "anyxml"))] if (forced or rng.random() < 0.7) else []
+    return ig.instances(n, 2, forced)
+
+
+def add_ext(rng, ig, dnodes, parent, schema_children, ext, rpcname=None):
+    """instances of the augmented nodes (valid by construction: the case of another module replaces the nodes of the other
+    cases of its choice)"""
+    for d in dnodes:
+        if d.schema.kind in ("container", "list") and d.schema.module is not ext:
+            add_ext(rng, ig, d.children, d.schema, d.schema.children, ext)
+    if parent is not None or rpcname is not None:
+        for _, ns, t, case in ext.augs:
+            if case is None and (t is parent or (rpcname is not None and t == ("rpc", rpcname))):
+                for n in ns:
+                    dnodes += ext_instance(rng, ig, n)
+    for ch in schema_children:
+        if ch.kind == "choice":
+            for ns, case in ext.nodes_for(ch):
+                if rng.random() < 0.45:
+                    mem = {id(c) for c, _ in yanggen.flatten_children([ch])}
+                    dnodes[:] = [d for d in dnodes if id(d.schema) not in mem]
+                    for n in ns:
+                        dnodes += ext_instance(rng, ig, n, True)
+    if parent is None and rpcname is None:
+        for n in ext.tops:
+            dnodes += ext_instance(rng, ig, n)
+
+
+def inject_features(rng, m):
+    """feature-dependent leaves (never instantiated): the two contexts of a case enable different feature sets"""
+    m.features = ["f1"]
+    k = [0]
+
+    def rec(nodes, config, parent, p):
+        for n in list(nodes):
+            if n.kind in ("container", "list"):
+                rec(n.children, n.config, n, 0.4)
+        if rng.random() < p:
+            k[0] += 1
+            lf = yanggen.SLeaf("fx%d" % k[0], yanggen.TString(), config=config, iffeature="f1")
+            lf.module = m
+            lf.parent = parent
+            nk = len([c for c in nodes if getattr(c, "is_key", False)])
+            nodes.insert(rng.randrange(nk, len(nodes) + 1), lf)
+    rec(m.nodes, True, None, 0.8)
+
+
+def schema_desc(m, with_m2=False, ext=None):
     """facts about the schema the expectations need: kind, key?, number of keys, ordered-by user?, position among the
     data children of the parent (lys_getnext order), module index"""
     S = {}
 
-    def rec(children, base=0):
-        for pos, (n, _) in enumerate(yanggen.flatten_children(children)):
-            S["%s:%s" % (m.name, n.name)] = {"k": n.kind, "key": bool(getattr(n, "is_key", False)),
-                                            "nk": len(n.keys) if n.kind == "list" else 0,
-                                            "uo": bool(getattr(n, "userord", False)), "ord": base + pos, "mi": 0}
+    def entry(mod, n, pos, mi):
+        S["%s:%s" % (mod, n.name)] = {"k": n.kind, "key": bool(getattr(n, "is_key", False)),
+                                     "nk": len(n.keys) if n.kind == "list" else 0,
+                                     "uo": bool(getattr(n, "userord", False)), "ord": pos, "mi": mi}
+
+    def flatx(children):
+        """data children in lys_getnext order: the nodes a case of another module adds to a choice follow the choice's own"""
+        out = []
+        for n in children:
+            if n.kind == "choice":
+                for _, cns in n.cases:
+                    out += flatx(cns)
+                if ext is not None:
+                    for ns, _ in ext.nodes_for(n):
+                        out += ns
+            else:
+                out.append(n)
+        return out
+
+    def rec(children, owner=None, base=0):
+        fl = flatx(children)
+        if ext is not None and owner is not None:
+            for _, ns, t, case in ext.augs:
+                if case is None and (t is owner or t == owner):
+                    fl = fl + ns
+        for pos, n in enumerate(fl):
+            entry(n.module.name if getattr(n, "module", None) is not None else m.name, n, base + pos, 2 if n.module is ext else 0)
             if n.kind in ("container", "list"):
-                rec(n.children)
+                rec(n.children, n)
     rec(m.nodes)
     for i, (name, inp, _) in enumerate(m.rpcs):
         S["%s:%s" % (m.name, name)] = {"k": "rpc", "key": False, "nk": 0, "uo": False, "ord": 10000 + i, "mi": 0}
-        rec(inp)
+        rec(inp, ("rpc", name))
+    if ext is not None:
+        for pos, n in enumerate(ext.tops):
+            entry("m3", n, pos, 2)
+            if n.kind in ("container", "list"):
+                rec(n.children, n)
     if with_m2:
         for k, (kind, pos) in M2_SCHEMA.items():
             S[k] = {"k": kind, "key": False, "nk": 0, "uo": False, "ord": pos, "mi": 1}
@@ -518,7 +710,7 @@ def merge_ref(S, target, source, first, opts, entry, mod):
     the source sibling handed to the function"""
     T = [n.copy() for n in target]
     log = []
-    nsmap = {"urn:verif:m1": "m1", "urn:verif:m2": "m2", "m1": "m1", "m2": "m2"}
+    nsmap = {"urn:verif:m1": "m1", "urn:verif:m2": "m2", "urn:verif:m3": "m3", "m1": "m1", "m2": "m2", "m3": "m3"}
     for n in source[first:]:
         if mod and owner_mod(S, n, nsmap) != mod:
             continue
@@ -528,16 +720,20 @@ def merge_ref(S, target, source, first, opts, entry, mod):
     return T, log
 
 
-def canon(S, forest):
+def canon(S, forest, top=True):
     """comparison form: the default mark of non-presence containers is left to comps_merge.MergeModel / C07 (not judged
-    here); instances of one system-ordered (leaf-)list are compared as a set (their order is judged by `inv`)"""
+    here); instances of one system-ordered (leaf-)list are compared as a set (their order is judged by `inv`); at top level
+    the order BETWEEN the modules is not compared (it follows the history of insertions; `inv` judges that the nodes of one
+    module are contiguous), the order inside a module is"""
     out = []
     for n in forest:
         m = n.copy(deep=False)
         if kind_of(S, n) in ("container", "rpc"):
             m.flags = m.flags.replace("d", "")
-        m.children = canon(S, n.children)
+        m.children = canon(S, n.children, False)
         out.append(m)
+    if top:
+        out.sort(key=lambda x: (1, "") if x.opq else (0, x.mod))
     res = []
     i = 0
     while i < len(out):
@@ -689,6 +885,12 @@ def position_classes(S, forest):
             c.append("in-list")
         if si > 0:
             c.append("not-first-sibling")
+        if not n.opq and n.mod == "m3":
+            c.append("mod-m3")
+        if any(not a.opq and a.mod == "m3" for a in anc):
+            c.append("below-m3")
+        if not n.opq and any(x is not n and not x.opq and x.name == n.name and x.mod != n.mod for x in sibs):
+            c.append("same-name-sibling")
         for x in c:
             cls.setdefault(x, []).append(i)
     return cls
@@ -703,64 +905,75 @@ class DupMatrix(Oracle):
     quick_sanitize = True
     NODES = 7
     COMBOS = 9
+    QUICK, THOROUGH = 240, 2500
+    CROSS_BIAS = 0.0            # share of the same-context entry points turned into their *_to_ctx variant
+    ROUNDTRIP = 0.15            # share of the cross-context duplicates that are duplicated back
+    CLASSES_FIRST = []
+
+    def make_case(self, rng, i):
+        """one module in both contexts"""
+        rpc = (i % 6 == 5)
+        m = gen_module(rng, state=(i % 3 == 0), rpc=rpc)
+        ig = yanggen.InstGen(rng, meta_prob=0.3 if i % 4 else 0.0)
+        schema = m.rpcs[0][1] if rpc else m.nodes
+        f0 = ig.children_of(schema)
+        add_any(rng, f0, schema)
+        f1 = yanggen.cross(rng, f0, ig.children_of(schema), schema)
+        add_any(rng, f1, schema, 0.3)
+        vary_any(rng, f1)
+        if i % 4:
+            add_meta(rng, f0, 0.25)
+            add_meta(rng, f1, 0.15)
+        opaq = (i % 5 == 4) and not rpc
+        if opaq:
+            # not validated trees with opaque nodes created by the parser
+            add_raw(rng, m, f0)
+            add_raw(rng, m, f1)
+        return {"S": schema_desc(m), "mods": [[(m.yang(), "-")], [(m.yang(), "-")]], "ns": m.ns, "rpc": rpc, "opaq": opaq,
+                "doc0": doc_of(m, f0, rpc), "doc1": doc_of(m, f1, rpc)}
 
     def gen(self, rng, tier, scale=1.0):
-        ncase = self.n(tier, 240, 2500, scale)
+        ncase = self.n(tier, self.QUICK, self.THOROUGH, scale)
         pre = []
         for i in range(ncase):
-            rpc = (i % 6 == 5)
-            m = gen_module(rng, state=(i % 3 == 0), rpc=rpc)
-            ig = yanggen.InstGen(rng, meta_prob=0.3 if i % 4 else 0.0)
-            schema = m.rpcs[0][1] if rpc else m.nodes
-            f0 = ig.children_of(schema)
-            add_any(rng, f0, schema)
-            f1 = yanggen.cross(rng, f0, ig.children_of(schema), schema)
-            add_any(rng, f1, schema, 0.3)
-            vary_any(rng, f1)
-            if i % 4:
-                add_meta(rng, f0, 0.25)
-                add_meta(rng, f1, 0.15)
-            opaq = (i % 5 == 4) and not rpc
-            if opaq:
-                # not validated trees with opaque nodes created by the parser
-                add_raw(rng, m, f0)
-                add_raw(rng, m, f1)
+            case = self.make_case(rng, i)
+            rpc, opaq = case["rpc"], case["opaq"]
             s = Script()
-            s.add("#S", hexs(json.dumps(schema_desc(m), separators=(",", ":"))))
-            s.ctx(0)
-            s.mod(m.yang(), 0)
-            s.ctx(1)
-            s.mod(m.yang(), 1)
-            parse_cmd(s, 0, 0, doc_of(m, f0, rpc), rpc, opaq)
-            parse_cmd(s, 0, 1, doc_of(m, f1, rpc), rpc, opaq)
-            parse_cmd(s, 1, 2, doc_of(m, f1, rpc), rpc, opaq)
+            s.add("#S", hexs(json.dumps(case["S"], separators=(",", ":"))))
+            for c in (0, 1):
+                s.ctx(c)
+                for text, feats in case["mods"][c]:
+                    s.mod(text, c, feats)
+            parse_cmd(s, 0, 0, case["doc0"], rpc, opaq)
+            parse_cmd(s, 0, 1, case["doc1"], rpc, opaq)
+            parse_cmd(s, 1, 2, case["doc1"], rpc, opaq)
             n0 = len(s.cmds)
             s.add("xdump", "t0")
             s.add("xdump", "t1")
-            pre.append((m, s, n0))
+            pre.append((case, s, n0))
         outs = stage1([script_line(s) for _, s, _ in pre])
         # all (options, entry, parent?) combinations, dealt round robin so that a few hundred calls cover the matrix
         combos = [(o, e, p) for o in range(16) for e in ENTRIES for p in (0, 1)]
         rng.shuffle(combos)
         ci = 0
-        classes_order = ["top", "nested", "deep", "kind-list", "kind-leaf-list", "key", "default", "kind-anydata", "kind-anyxml",
+        classes_order = self.CLASSES_FIRST + ["top", "nested", "deep", "kind-list", "kind-leaf-list", "key", "default", "kind-anydata", "kind-anyxml",
                          "kind-opaque", "opaque-child", "meta-self", "meta-ancestor", "meta-descendant", "meta-sibling",
                          "kind-container", "kind-leaf", "in-list", "not-first-sibling", "kind-rpc", "any-ax", "any-aj", "any-as",
                          "any-ab", "any-at", "any-aN"]
         ki = 0
         L = []
-        for (m, s, n0), out in zip(pre, outs):
+        for (case, s, n0), out in zip(pre, outs):
             r = results(out)
             if crashed(out) or len(r) < n0 + 3 or any(rc(x) != 0 for x in r[1:n0]):
                 # module or instance rejected: keep the case (judge counts it as not judged)
                 L.append(script_line(s))
                 continue
-            S = schema_desc(m)
+            S = case["S"]
             s.cmds = s.cmds[:n0]
             F0 = parse_xdump(r[n0])
             F1 = parse_xdump(r[n0 + 1])
-            e0 = plan_edits(rng, F0, S, m.ns)
-            e1 = plan_edits(rng, F1, S, m.ns, p_any=0.3, p_opq=0.3)
+            e0 = plan_edits(rng, F0, S, case["ns"])
+            e1 = plan_edits(rng, F1, S, case["ns"], p_any=0.3, p_opq=0.3)
             s.add("dup", "t1", "t9", DUP_RECURSIVE)        # value trees for anydata values (copies of the second tree)
             s.add("dup", "t2", "t10", DUP_RECURSIVE)
             for (es, c, t) in ((e0, 0, 0), (e1, 0, 1), (e1, 1, 2)):
@@ -789,6 +1002,8 @@ class DupMatrix(Oracle):
                     ci += 1
                     if rng.random() < 0.25:
                         o |= DUP_WITH_PRIV
+                    if e in "sb" and rng.random() < self.CROSS_BIAS:
+                        e = e.upper()
                     ctx = "c1" if e in "SB" else "-"
                     if e in "SB" and rng.random() < 0.15:
                         ctx = "c0"
@@ -810,6 +1025,11 @@ class DupMatrix(Oracle):
                         s.add("xctxof", "t5", "c1" if ctx == "c1" else "c0")
                         if rng.random() < 0.3:
                             s.add("inv", "t5")
+                        if ctx == "c1" and rng.random() < self.ROUNDTRIP:
+                            # and back into the first context
+                            s.add("xdup", "B", "t5", "t11", rng.choice([1, 9, 0x29, 3, 0]), "c0", "-")
+                            s.add("xdump", "t11")
+                            s.add("xctxof", "t11", "c0")
                     else:
                         # the parent lives in a fresh copy of the second tree (same context, or the other one)
                         wrongctx = (e in "sb") and rng.random() < 0.06
@@ -833,6 +1053,16 @@ class DupMatrix(Oracle):
                   "s", hexs("edited"))
             s.add("free", "t7")
             s.add("xdump", "t0")
+            # the whole forest into the other context and back: nothing may change (private pointers and flags included)
+            s.add("xdup", "B", "t0", "t12", 0x29, "c1", "-")
+            s.add("xdump", "t12")
+            s.add("xctxof", "t12", "c1")
+            s.add("inv", "t12")
+            s.add("xdup", "B", "t12", "t13", 0x29, "c0", "-")
+            s.add("xdump", "t13")
+            s.add("xctxof", "t13", "c0")
+            s.add("#same", "t0", "t13")
+            s.add("cmp", "t0", "t13", 3)
             s.add("xdup", "B" if rng.random() < 0.3 else "b", "t0", "t8", DUP_RECURSIVE | rng.choice([0, 8, 2]), "c1", "-")
             s.add("xdump", "t8")
             s.add("#keep", "t8")
@@ -930,6 +1160,14 @@ class DupMatrix(Oracle):
                 if parts[2] != render_one(first, 0):
                     return (None, "%s: returned node {%s}, expected {%s}" % (desc, pretty(parts[2]), pretty(render_one(first, 0))))
                 pend[tslot] = (render(ef), cpath, desc)
+            elif op == "#same":
+                a, b = last.get(w[1]), last.get(w[2])
+                if a is not None and b is not None and a != b:
+                    return (None, "duplicating %s into the other context and back (%s) changed the tree: %s || original %s || "
+                            "round trip %s" % (w[1], w[2], first_diff(a, b), pretty(a), pretty(b)))
+            elif op == "cmp":
+                if res != "0" and last.get(w[1]) is not None and last.get(w[1]) == last.get(w[2]):
+                    return (None, "lyd_compare_siblings(%s, %s, %s) = %s although the dumps are equal" % (w[1], w[2], w[3], res))
             elif op == "xshare":
                 if res != "ok":
                     return (None, "duplicate and original share a heap block (%s after %s)" % (res, cmds[k - 2][:80]))
@@ -955,6 +1193,60 @@ class DupMatrix(Oracle):
         return None
 
 
+def family_case(rng, i, merge=False):
+    """m1 + m3 (equal local names at the same level, see gen_ext) + m2; context 1 holds the same modules loaded in another
+    order and with another feature set. Returns the case description used by DupMatrix.gen / MergeKinds.gen"""
+    rpc = (i % 5 == 4)
+    m = gen_module(rng, state=False, rpc=rpc)
+    ext = gen_ext(rng, m)
+    ig = yanggen.InstGen(rng, meta_prob=0.2 if i % 3 else 0.0)
+    schema = m.rpcs[0][1] if rpc else m.nodes
+    f0 = ig.children_of(schema)
+    add_any(rng, f0, schema)
+    r = rng.random()
+    if merge and r >= 0.85:
+        f1 = None
+    else:
+        f1 = yanggen.cross(rng, f0, ig.children_of(schema), schema) if r < 0.7 else ig.children_of(schema)
+        add_any(rng, f1, schema, 0.4)
+        vary_any(rng, f1)
+    rn = m.rpcs[0][0] if rpc else None
+    add_ext(rng, ig, f0, None, schema, ext, rn)
+    if f1 is None:
+        f1 = [n.clone() for n in f0]
+    else:
+        add_ext(rng, ig, f1, None, schema, ext, rn)
+    if i % 3:
+        add_meta(rng, f0, 0.15)
+    inject_features(rng, m)
+    d0, d1 = doc_of(m, f0, rpc), doc_of(m, f1, rpc)
+    if not rpc:
+        x = m2_doc(rng)
+        d0 += x
+        d1 += x if (merge and r >= 0.85) else m2_doc(rng)
+    fe = rng.choice([("f1", "-"), ("-", "f1"), ("f1", "f1")])
+    mods = [[(m.yang(), fe[0]), (ext.yang(), "-"), (M2_YANG, "-")], [(M2_YANG, "-"), (m.yang(), fe[1]), (ext.yang(), "-")]]
+    return {"S": schema_desc(m, True, ext), "mods": mods, "ns": m.ns, "rpc": rpc, "opaq": False, "doc0": d0, "doc1": d1,
+            "same": merge and r >= 0.85}
+
+
+class DupFamilies(DupMatrix):
+    """C14 dup across contexts over schema families: a second module defines equal local names at the same level (augments
+    into the other module's containers / lists / choices / rpc input, top-level nodes of equal name), the target context
+    holds the same modules loaded in another order with another feature set; module-qualified dumps against dup_expect,
+    and the round trip context 1 -> 2 -> 1"""
+    name = "dupfamilies"
+    QUICK, THOROUGH = 120, 1500
+    NODES = 6
+    COMBOS = 7
+    CROSS_BIAS = 0.6
+    ROUNDTRIP = 0.5
+    CLASSES_FIRST = ["mod-m3", "same-name-sibling", "mod-m3", "below-m3", "same-name-sibling", "mod-m3"]
+
+    def make_case(self, rng, i):
+        return family_case(rng, i)
+
+
 # ------------------------------------------------------------------------------------------------
 # MergeKinds
 # ------------------------------------------------------------------------------------------------
@@ -965,68 +1257,85 @@ class MergeKinds(Oracle):
     name = "mergekinds"
     driver = DRIVER
     quick_sanitize = True
+    QUICK, THOROUGH = 360, 4000
+    TCTX = 0                    # context of the target (the source is parsed in context 0)
+    MODS = ["m1", "m1", "m2"]
+
+    def copy_source(self, s):
+        """working copy t3 of the source t1 (in the context of the target)"""
+        s.add("dup", "t1", "t3", DUP_RECURSIVE | DUP_WITH_FLAGS)
+
+    def make_case(self, rng, i):
+        rpc = (i % 7 == 6)
+        m = gen_module(rng, state=False, rpc=rpc)
+        ig = yanggen.InstGen(rng, meta_prob=0.15 if i % 3 else 0.0)
+        if i % 5 == 0:
+            ig.edp = 0.8
+        schema = m.rpcs[0][1] if rpc else m.nodes
+        ft = ig.children_of(schema)
+        add_any(rng, ft, schema)
+        r = rng.random()
+        if r < 0.7:
+            fs = yanggen.cross(rng, ft, ig.children_of(schema), schema)
+            add_any(rng, fs, schema, 0.4)
+            vary_any(rng, fs)
+        elif r < 0.85:
+            fs = ig.children_of(schema)
+            add_any(rng, fs, schema)
+        else:
+            fs = [n.clone() for n in ft]        # source == target
+        dt, ds = doc_of(m, ft, rpc), doc_of(m, fs, rpc)
+        if not rpc:
+            dt += m2_doc(rng)
+            ds = dt if r >= 0.85 else ds + m2_doc(rng)
+        return {"S": schema_desc(m, True), "mods": [[(m.yang(), "-"), (M2_YANG, "-")]], "ns": m.ns, "rpc": rpc,
+                "doc0": dt, "doc1": ds, "same": r >= 0.85}
 
     def gen(self, rng, tier, scale=1.0):
-        ncase = self.n(tier, 360, 4000, scale)
+        ncase = self.n(tier, self.QUICK, self.THOROUGH, scale)
         pre = []
         for i in range(ncase):
-            rpc = (i % 7 == 6)
-            m = gen_module(rng, state=False, rpc=rpc)
-            ig = yanggen.InstGen(rng, meta_prob=0.15 if i % 3 else 0.0)
-            if i % 5 == 0:
-                ig.edp = 0.8
-            schema = m.rpcs[0][1] if rpc else m.nodes
-            ft = ig.children_of(schema)
-            add_any(rng, ft, schema)
-            r = rng.random()
-            if r < 0.7:
-                fs = yanggen.cross(rng, ft, ig.children_of(schema), schema)
-                add_any(rng, fs, schema, 0.4)
-                vary_any(rng, fs)
-            elif r < 0.85:
-                fs = ig.children_of(schema)
-                add_any(rng, fs, schema)
-            else:
-                fs = [n.clone() for n in ft]        # source == target
-            dt, ds = doc_of(m, ft, rpc), doc_of(m, fs, rpc)
-            if not rpc:
-                dt += m2_doc(rng)
-                ds = dt if r >= 0.85 else ds + m2_doc(rng)
+            case = self.make_case(rng, i)
+            rpc = case["rpc"]
             s = Script()
-            s.add("#S", hexs(json.dumps(schema_desc(m, True), separators=(",", ":"))))
-            s.ctx(0)
-            s.mod(m.yang(), 0)
-            s.mod(M2_YANG, 0)
-            parse_cmd(s, 0, 0, dt, rpc)
-            parse_cmd(s, 0, 1, ds, rpc)
+            s.add("#S", hexs(json.dumps(case["S"], separators=(",", ":"))))
+            for c in range(len(case["mods"])):
+                s.ctx(c)
+                for text, feats in case["mods"][c]:
+                    s.mod(text, c, feats)
+            parse_cmd(s, self.TCTX, 0, case["doc0"], rpc)
+            parse_cmd(s, 0, 1, case["doc1"], rpc)
             n0 = len(s.cmds)
             s.add("xdump", "t0")
             s.add("xdump", "t1")
-            pre.append((m, s, n0, r >= 0.85))
+            pre.append((case, s, n0, case["same"]))
         outs = stage1([script_line(s) for _, s, _, _ in pre])
         combos = [(o, e) for o in range(8) for e in ("t", "s", "m", "M")]
         rng.shuffle(combos)
         ci = 0
         L = []
-        for (m, s, n0, same), out in zip(pre, outs):
+        for (case, s, n0, same), out in zip(pre, outs):
             r = results(out)
             if crashed(out) or len(r) < n0 + 3 or any(rc(x) != 0 for x in r[1:n0]):
                 L.append(script_line(s))
                 continue
-            S = schema_desc(m, True)
+            S = case["S"]
+            ns = case["ns"]
+            tc = self.TCTX
             s.cmds = s.cmds[:n0]
             FT, FS = parse_xdump(r[n0]), parse_xdump(r[n0 + 1])
             s.add("dup", "t1", "t9", DUP_RECURSIVE)
+            s.add("dup", "t0", "t10", DUP_RECURSIVE)
             # opaque nodes anywhere in both trees (the aborts this used to cause are fixed: 1e72cd5 aad6b04 c60598c; their
             # witnesses are regression cases in corpus/mergekinds.txt)
             if same:
-                es = et = plan_edits(rng, FT, S, m.ns, p_opq=0.6)
+                es = et = plan_edits(rng, FT, S, ns, p_opq=0.6)
                 FS = FT
             else:
-                et = plan_edits(rng, FT, S, m.ns, p_opq=0.6)
-                es = plan_edits(rng, FS, S, m.ns, p_any=0.7, p_opq=0.6)
-            for (ed, t) in ((et, 0), (es, 1)):
-                emit_edits(s, ed, 0, t, 9)
+                et = plan_edits(rng, FT, S, ns, p_opq=0.6)
+                es = plan_edits(rng, FS, S, ns, p_any=0.7, p_opq=0.6)
+            emit_edits(s, et, tc, 0, 10)
+            emit_edits(s, es, 0, 1, 9)
             s.add("xdump", "t0")
             s.add("#keep", "t0")
             s.add("xdump", "t1")
@@ -1041,10 +1350,10 @@ class MergeKinds(Oracle):
                     modarg = ["-"]
                 elif e == "M":
                     e = "m"
-                    modarg = [rng.choice(["m1", "m1", "m2"])]
+                    modarg = [rng.choice(self.MODS)]
                 # working copies: target t2, source t3
                 s.add("dup", "t0", "t2", DUP_RECURSIVE | DUP_WITH_FLAGS)
-                s.add("dup", "t1", "t3", DUP_RECURSIVE | DUP_WITH_FLAGS)
+                self.copy_source(s)
                 s.add("xdump", "t2")
                 s.add("xdump", "t3")
                 s.add("xmerge", e, "t2", "t3#%d" % self.top_index(FS, first), o, *modarg)
@@ -1060,7 +1369,7 @@ class MergeKinds(Oracle):
             o = rng.randrange(0, 8)
             s.add("free", "t2")
             s.add("xdump", "t2")
-            s.add("dup", "t1", "t3", DUP_RECURSIVE | DUP_WITH_FLAGS)
+            self.copy_source(s)
             s.add("xdump", "t3")
             s.add("xmerge", "s", "t2", "t3", o)
             s.add("xdump", "t2")
@@ -1074,7 +1383,7 @@ class MergeKinds(Oracle):
             s.add("xdump", "t3")
             nested = [i for i, (n, anc, _, _) in enumerate(flat(FS)) if anc and not n.opq and not anc[0].opq]
             if nested:
-                s.add("dup", "t1", "t3", DUP_RECURSIVE | DUP_WITH_FLAGS)
+                self.copy_source(s)
                 s.add("xdump", "t3")
                 s.add("xmerge", "s", "t2", "t3#%d" % rng.choice(nested), o & ~MERGE_DESTRUCT)
                 s.add("xdump", "t2")
@@ -1156,6 +1465,14 @@ class MergeKinds(Oracle):
             elif op == "inv":
                 if res != "ok":
                     return (None, "merged tree breaks a tree invariant: %s (after %s)" % (res, cmds[k - 3][:80]))
+            elif op == "xdup":
+                last[w[3]] = None
+                pend.pop(w[3], None)
+                if rc(res) != 0:
+                    return (None, "duplicating the source into the context of the target failed: %s -> %s" % (c[:60], res[:40]))
+            elif op == "xctxof":
+                if res != "ok":
+                    return (None, "a node of the duplicated source belongs to another context (%s)" % res)
             elif op in ("free", "dup", "xanyset", "xopaq"):
                 t = (w[2] if op in ("dup", "xopaq") else w[1]).split("#")[0].rstrip("^")
                 last[t] = None
@@ -1165,3 +1482,20 @@ class MergeKinds(Oracle):
         if pend:
             return (None, "script error: expectation without a dump")
         return None
+
+
+class MergeFamilies(MergeKinds):
+    """C14 merge over schema families and across contexts: target and source hold nodes of two modules with equal local
+    names at the same level (see DupFamilies); the target lives in a second context (other load order, other features), the
+    source is duplicated into it with lyd_dup_siblings_to_ctx before every merge; result against merge_ref"""
+    name = "mergefamilies"
+    QUICK, THOROUGH = 120, 1500
+    TCTX = 1
+    MODS = ["m1", "m3", "m3", "m2"]
+
+    def copy_source(self, s):
+        s.add("xdup", "B", "t1", "t3", DUP_RECURSIVE | DUP_WITH_FLAGS, "c1", "-")
+        s.add("xctxof", "t3", "c1")
+
+    def make_case(self, rng, i):
+        return family_case(rng, i, merge=True)
